@@ -57,6 +57,7 @@ func (e *Engine) VerifyLemma(ax *Axiom) (res *UnitResult) {
 			}
 		}
 	}()
+	nameDefs = map[string]*Term{}
 	fx := e.specOnlyExec(c)
 	fx.prefix = u.Name
 	env := &SpecEnv{fx: fx, pkg: ax.Pkg, vars: map[string]specVal{}, st: fx.entry, where: "lemma " + ax.Name}
